@@ -11,6 +11,9 @@ creates the destination (`appear`).
 The model follows the code after the three `fix:` commits (errors in flush/fsync/close and in
 fdopen/chmod go through the cleanup; only ENOENT from `os.stat` means "destination absent").
 
+`runSave` takes C04's `Body` (writes only); `runScript` (end of this file) is the same saver under a
+with-block that may also flush and close the file object itself, and is what the driver runs.
+
 Core Lean only.
 -/
 namespace C05
@@ -199,5 +202,103 @@ def noFaults : Plan := fun _ => .pass
 
 /-- the bytes a complete save puts at the destination -/
 def newContent (body : Body) : Bytes := (body.writes.map (·.1)).flatten
+
+/-! ### with-blocks that do more than write: the block may flush and close the file object itself
+
+An error is an opaque number for the saver (`except Exception`): an `Errno` below 1000 is the errno
+of an `OSError`; the numbers from 1000 on name exception classes that are not errno-carrying
+`OSError`s (1001 = `ValueError`, 1002 = `MemoryError`, ... - the table is `EXC_CODES` in
+harness/bv/props/c05.py).  Every theorem quantifies over all plans, hence over failures of every
+class at every call.  `EVALUE` is what Python itself raises for I/O on a closed file object. -/
+
+def EVALUE : Errno := 1001
+
+/-- one statement of the with-block acting on the file object -/
+inductive Op where
+  | write (data : Bytes) (spill : Nat)
+  | flush
+  | close
+deriving DecidableEq, Repr
+
+/-- the with-block: its calls on the file object, in order, and whether it then ends by raising -/
+structure Script where
+  ops : List Op
+  raises : Bool
+deriving DecidableEq, Repr
+
+def opData : Op → Bytes
+  | .write d _ => d
+  | _ => []
+
+/-- all bytes the block writes -/
+def Script.content (sc : Script) : Bytes := (sc.ops.map opData).flatten
+
+def Script.ofBody (body : Body) : Script := ⟨body.writes.map (fun w => Op.write w.1 w.2), body.raises⟩
+
+/-- `write` / `flush` on the part file OBJECT: once the object is closed Python refuses the call
+    with `ValueError` (nothing reaches the operating system); it is an instrumented call all the same -/
+def fcall (plan : Plan) (m : M) (ev : Ev) : Option Errno × M :=
+  if m.fs.openf.isSome then call plan m ev else
+  match plan m.n with
+  | .fail e => (some e, { m with n := m.n + 1, errs := m.errs + 1 })
+  | .pass => (some EVALUE, { m with n := m.n + 1, errs := m.errs + 1 })
+  | .appear => (some EVALUE, { m.env .appear with n := m.n + 1, errs := m.errs + 1 })
+
+/-- `close()` on the part file object: closing a closed object is a no-op -/
+def fclose (plan : Plan) (m : M) : Option Errno × M :=
+  if m.fs.openf.isSome then callClose plan m else
+  match plan m.n with
+  | .fail e => (some e, { m with n := m.n + 1, errs := m.errs + 1 })
+  | .pass => (none, { m with n := m.n + 1 })
+  | .appear => (none, { m.env .appear with n := m.n + 1 })
+
+/-- the block's calls; the first failing one raises out of the block -/
+def runOps (plan : Plan) (m : M) : List Op → Option Errno × M
+  | [] => (none, m)
+  | .write d k :: ops =>
+    match fcall plan m (.write d k) with
+    | (some e, m1) => (some e, m1)
+    | (none, m1) => runOps plan m1 ops
+  | .flush :: ops =>
+    match fcall plan m .flush with
+    | (some e, m1) => (some e, m1)
+    | (none, m1) => runOps plan m1 ops
+  | .close :: ops =>
+    match fclose plan m with
+    | (some e, m1) => (some e, m1)
+    | (none, m1) => runOps plan m1 ops
+
+/-- the inner `try: flush(); fsync() finally: close()` of `__exit__` on a file object that the
+    block may have closed (`os.fsync(self.part_file.fileno())` is only reached after a successful
+    `flush()`, i.e. with the object open) -/
+def syncCloseG (plan : Plan) (m : M) : Option Errno × M :=
+  let r1 := fcall plan m .flush
+  let r2 := match r1.1 with
+    | none => call plan r1.2 .fsync
+    | some _ => (none, r1.2)
+  let r3 := fclose plan r2.2
+  (r3.1 <|> r1.1 <|> r2.1, r3.2)
+
+/-- `__exit__` -/
+def finishG (cfg : Cfg) (plan : Plan) (m : M) (blockExc : Option Outcome) : Outcome × M :=
+  match syncCloseG plan m with
+  | (some e, m3) => (blockExc.getD (.osErr e), rmPart cfg plan m3)
+  | (none, m3) =>
+    match blockExc with
+    | some b => (b, rmPart cfg plan m3)
+    | none => publish cfg plan m3
+
+def scriptOutcome (sc : Script) (rw : Option Errno) : Option Outcome :=
+  match rw with
+  | some e => some (.osErr e)
+  | none => if sc.raises then some .bodyExc else none
+
+/-- `with atomic_save(dest, **cfg) as f: <script>` -/
+def runScript (cfg : Cfg) (sc : Script) (plan : Plan) (fs : FS) (envIno : Nat) : Outcome × M :=
+  match setup cfg plan (M.start fs envIno) with
+  | (some e, m1) => (.osErr e, m1)
+  | (none, m1) =>
+    let (rw, m2) := runOps plan m1 sc.ops
+    finishG cfg plan m2 (scriptOutcome sc rw)
 
 end C05
